@@ -5,7 +5,7 @@ import sys
 
 import core
 
-PROPS = ['Props/C15.lean']
+PROPS = ['Props/C15.lean', 'Legacy/RemoteExc.lean']
 SCEN = 'scen_remoteexc'
 MODEL = 'remoteexc'
 
@@ -162,8 +162,15 @@ ASSUMPTIONS = [
 
 def replay(chk, data):
     scen = _scen()
+    data['case']['verbose'] = True
     res = chk.run_cases(SCEN, [data['case']], sched=False)
     case, r = res[0]
+    for k, t in enumerate(r.get('texts', [])):
+        print(f'--- {"originally formatted traceback / carried text" if k == 0 else f"remote traceback text after hop {k - 1}"}:')
+        print(t)
+    for path, t in r.get('nested_texts', []):
+        print(f'--- nested exception {path} after the last hop:')
+        print(t)
     hits = [m for m in r['monitors'] if m['prop'] == chk.prop]
     differential(chk, scen, res)
     print(json.dumps(dict(monitors=r['monitors'], origin=r.get('origin'), skipped=r.get('skipped'),
